@@ -381,7 +381,7 @@ def _offset(lo, lenkey):
     return None
 
 
-def curie_join_check(cx: Cx, ob: Ob, fn_name: str, base_pred, base_desc: str) -> None:
+def curie_join_check(cx: Cx, ob: Ob, fn_name: str, base_pred, base_desc: str, nonempty_identifier_only: bool = False) -> None:
     """Success return of ``fn_name`` is prefix + self.delimiter + identifier of ``base``."""
     fn = cx.fn(f"{CONV}.{fn_name}", ob.id)
     s = cx.summary(fn, ob.id)
@@ -422,7 +422,7 @@ def curie_join_check(cx: Cx, ob: Ob, fn_name: str, base_pred, base_desc: str) ->
             else:
                 ob.violate(fn.qualname, where(fn, line), f"{fn_name} formats `{show(ca[0])[:70]}`; expected {base_desc}", detail="base")
                 continue
-        success_conditions(ob, fn, ctx, ca[0], line)
+        success_conditions(ob, fn, ctx, ca[0], line, nonempty_identifier_only)
     if n == 0:
         ob.undecide(f"{fn_name} has no success return")
     failure_needs_lookup(cx, ob, fn, s, me, "curie" if fn_name == "standardize_curie" else "uri" if fn_name == "compress" else "both")
@@ -541,13 +541,17 @@ def _strict_parse_in_handler(cx: Cx, ctx, base, me) -> bool:
     return False
 
 
-def success_conditions(ob: Ob, fn, ctx, base, line) -> None:
+def success_conditions(ob: Ob, fn, ctx, base, line, nonempty_identifier_only: bool = False) -> None:
     """On the success path the only test of the parsed result is whether it exists."""
     for g in ctx.guards:
         if g.kind != "guard":
             continue
         t = g.a
         if t == base:
+            continue
+        if nonempty_identifier_only and g.b and t == ("attr", base, "identifier"):
+            # the caller's property speaks of non-empty identifiers only
+            ob.site(f"{where(fn, line)} {fn.qualname}", "requires a non-empty identifier (outside this property's domain)")
             continue
         if op(t) == "cmp" and t[2] == base and is_const(t[3], None):
             continue
